@@ -166,7 +166,7 @@ Proof.
   try solve [ step_inv St; unf; try rewrite reply_all_calls_only; destr_goal;
               split; unfold msgs_closes, count in *; cbn in *; auto;
               repeat match goal with H : closed _ = _ |- _ => rewrite H in *; revert H
-                                   | H : mclosed _ = _ |- _ => rewrite H in *; revert H end; intros; auto ].
+                                   | H : mclosed _ = _ |- _ => rewrite H in *; revert H end; intros; auto; try congruence ].
   - (* LCloseCall *)
     step_inv St. split; unfold msgs_closes in *; cbn in *; auto.
     rewrite count_app. change (count is_first [CLMark]) with 0. lia.
